@@ -299,6 +299,10 @@ impl DiskStruct for Track {
         self.head = bytes[2];
         self.sectors = bytes[3];
         self.sector_shift = bytes[4];
+        if self.sector_shift > 6 {
+            // sector sizes are 128 << shift with shift 0..6; 0xff (per-sector size table) is not supported
+            return Err(DiskStructError::IllegalValue);
+        }
         debug!("Cylinder {}, Head {}: {} sectors x {} bytes",self.cylinder,self.head & HEAD_MASK,self.sectors,SECTOR_SIZE_BASE << self.sector_shift);
         let mut ptr: usize = 5;
         check(bytes,ptr+self.sectors as usize)?;
@@ -323,6 +327,10 @@ impl DiskStruct for Track {
         }
         self.track_buf = Vec::new();
         for _lsec in 0..self.sectors {
+            check(bytes,ptr+1)?;
+            if bytes[ptr] > 8 {
+                return Err(DiskStructError::IllegalValue);
+            }
             let sec_size = self.get_sec_buf_size(bytes[ptr]);
             check(bytes,ptr+sec_size)?;
             self.track_buf.append(&mut bytes[ptr..ptr+sec_size].to_vec());
@@ -590,7 +598,7 @@ impl img::DiskImage for Imd {
             [73,77,68,32,48,46] => info!("identified IMD v0.x header"),
             [73,77,68,32,49,46] => info!("identified IMD v1.x header"),
             [73,77,68,32,x,y] => {
-                warn!("IMD header found but with unknown major version {}.{}...",x-48,y-48);
+                warn!("IMD header found but with unknown major version {}.{}...",x.wrapping_sub(48),y.wrapping_sub(48));
                 return Err(DiskStructError::UnexpectedValue);
             }
             _ => return Err(DiskStructError::UnexpectedValue)
@@ -601,6 +609,10 @@ impl img::DiskImage for Imd {
                 ptr = i;
                 break;
             }
+        }
+        if ptr==0 {
+            debug!("IMD comment terminator not found");
+            return Err(DiskStructError::UnexpectedValue);
         }
         if let Ok(comment) = String::from_utf8(data[29..ptr].to_vec()) {
             let mut ans = Self {
@@ -622,6 +634,10 @@ impl img::DiskImage for Imd {
             }
             // TODO: this works for now, but we should have the IMD object set up a pattern
             // that can be explicitly matched against the disk kind.
+            if ans.tracks.len()==0 {
+                debug!("IMD has no tracks");
+                return Err(DiskStructError::UnexpectedSize);
+            }
             ans.kind = match (ans.byte_capacity(),ans.tracks[0].sectors) {
                 (l,8) if l==DSDD_77.byte_capacity() => img::DiskKind::D8(DSDD_77),
                 (l,8) if l==IBM_SSDD_8.byte_capacity() => img::DiskKind::D525(IBM_SSDD_8),
